@@ -95,6 +95,107 @@ def ltSkeletonO : OTy → OTy
   | .some t => .some (ltSkeleton t)
 end
 
+mutual
+/-- The type as `render_type` shows it: the first segment of every path replaced by the crate name
+    that `id2name` gives for its package id. `none` where the real code panics (unknown package id,
+    empty path). -/
+def relabel (lk : List (String × String)) : Ty → Option Ty
+  | .path al p i bs as =>
+      match crateOf lk p with
+      | none => none
+      | some cn =>
+        match bs with
+        | [] => none
+        | _ :: tail =>
+          match relabelArgs lk as with
+          | some as' => some (.path al p i (cn :: tail) as')
+          | none => none
+  | .ref m l t => match relabel lk t with
+      | some t' => some (.ref m l t')
+      | none => none
+  | .tuple es => match relabelTys lk es with
+      | some es' => some (.tuple es')
+      | none => none
+  | .scalar s => some (.scalar s)
+  | .slice e => match relabel lk e with
+      | some e' => some (.slice e')
+      | none => none
+  | .array e n => match relabel lk e with
+      | some e' => some (.array e' n)
+      | none => none
+  | .rawPtr m t => match relabel lk t with
+      | some t' => some (.rawPtr m t')
+      | none => none
+  | .fnPtr ins out abi u =>
+      match relabelIns lk ins with
+      | some ins' =>
+        match relabelO lk out with
+        | some out' => some (.fnPtr ins' out' abi u)
+        | none => none
+      | none => none
+  | .generic x => some (.generic x)
+def relabelArgs (lk : List (String × String)) : GArgs → Option GArgs
+  | .nil => some .nil
+  | .ty t r => match relabel lk t with
+      | some t' => match relabelArgs lk r with
+        | some r' => some (.ty t' r')
+        | none => none
+      | none => none
+  | .lt l r => match relabelArgs lk r with
+      | some r' => some (.lt l r')
+      | none => none
+  | .const v r => match relabelArgs lk r with
+      | some r' => some (.const v r')
+      | none => none
+def relabelTys (lk : List (String × String)) : Tys → Option Tys
+  | .nil => some .nil
+  | .cons t r => match relabel lk t with
+      | some t' => match relabelTys lk r with
+        | some r' => some (.cons t' r')
+        | none => none
+      | none => none
+def relabelIns (lk : List (String × String)) : FnIns → Option FnIns
+  | .nil => some .nil
+  | .cons n t r => match relabel lk t with
+      | some t' => match relabelIns lk r with
+        | some r' => some (.cons n t' r')
+        | none => none
+      | none => none
+def relabelO (lk : List (String × String)) : OTy → Option OTy
+  | .none => some .none
+  | .some t => match relabel lk t with
+      | some t' => some (.some t')
+      | none => none
+end
+
+mutual
+/-- Every path has at least two segments (crate + item). -/
+def longPaths : Ty → Bool
+  | .path _ _ _ bs as => decide (2 ≤ bs.length) && longPathsArgs as
+  | .ref _ _ t => longPaths t
+  | .tuple es => longPathsTys es
+  | .scalar _ => true
+  | .slice e => longPaths e
+  | .array e _ => longPaths e
+  | .rawPtr _ t => longPaths t
+  | .fnPtr ins out _ _ => longPathsIns ins && longPathsO out
+  | .generic _ => true
+def longPathsArgs : GArgs → Bool
+  | .nil => true
+  | .ty t r => longPaths t && longPathsArgs r
+  | .lt _ r => longPathsArgs r
+  | .const _ r => longPathsArgs r
+def longPathsTys : Tys → Bool
+  | .nil => true
+  | .cons t r => longPaths t && longPathsTys r
+def longPathsIns : FnIns → Bool
+  | .nil => true
+  | .cons _ t r => longPaths t && longPathsIns r
+def longPathsO : OTy → Bool
+  | .none => true
+  | .some t => longPaths t
+end
+
 /-- `b'` extends `b`: every binding of `b` is a binding of `b'`. -/
 def BLe (b b' : List (String × Ty)) : Prop := ∀ x v, bget b x = some v → bget b' x = some v
 
